@@ -13,7 +13,8 @@
      8 MEMORY BLOW-UP 9 PROCESS CRASH 10 transport error.
    PROP = the property's own predicate fails (escaped panic, overrun, blow-up, crash) and the
    model does not attribute it to a listed finding; DIFF = implementation differs from the model;
-   KNOWN <flag> = the model computes the trigger of a listed finding. *)
+   KNOWN <flag> = the model computes the trigger of a listed finding.  Finding F5 (negative offset
+   token) is repaired in /repo (3cab6a7): a panic on that path is a PROP again. *)
 
 let class_name c = match c with
   | 0 -> "ok" | 1 -> "validation" | 2 -> "client_error" | 3 -> "deadline_answer" | 4 -> "internal_error"
@@ -93,13 +94,8 @@ let f _id vs =
     else begin
       let listing = seq_n 0 (if n < 0 then 0 else n) in
       let m = read_request_mem listing (if hasps then psz else Z0) tok in
-      let trig = negative_offset_token tok in
       match m with
-      | Panic ->
-        if not trig then "DIFF model inconsistency: Panic without the trigger"
-        else if c = 5 then
-          "KNOWN readpage_negative_offset_panic token \"" ^ String.escaped (cs tok) ^ "\" reaches matches[from:] with a negative offset"
-        else "DIFF model predicts a panic (negative offset token), observed " ^ class_name c
+      | Panic -> "DIFF model inconsistency: the request-level read cannot panic (no_panic_read_request)"
       | OutOfFuel -> "DIFF model out of fuel"
       | Ok None ->
         if c = 5 then "PROP panic where the model predicts an error answer, token \"" ^ String.escaped (cs tok) ^ "\""
@@ -127,11 +123,9 @@ let f _id vs =
     let m = read_page_mem (seq_n 0 n) (z_of_dec (as_dec size)) from in
     (match m with
      | Panic ->
-       let neg_from = (match parse_from from with Some (Zneg _) -> true | _ -> false) in
-       if c <> 5 then "DIFF storage ReadPage: model predicts a panic, observed " ^ class_name c
-       else if neg_from then
-         "KNOWN readpage_negative_offset_panic storage-level ReadPage with From=\"" ^ String.escaped (cs from) ^ "\""
-       else "OK" (* a negative page size at the storage level: outside the API's reach, model == code *)
+       (* only a negative page size (with a non-negative offset) is left: outside the API's reach *)
+       if c <> 5 then "DIFF storage ReadPage: model predicts a panic (negative page size), observed " ^ class_name c
+       else "OK"
      | OutOfFuel -> "DIFF model out of fuel"
      | Ok None -> if c = 1 then "OK" else if c = 5 then "PROP storage ReadPage panics where the model predicts an error"
        else "DIFF storage ReadPage: model predicts an error, observed " ^ class_name c
